@@ -17,9 +17,12 @@
 EXTENDS Common, TLC
 
 CONSTANTS MaxN,
-          Guarded     \* TRUE: the `assert!(i == len)` / `assert!(length == CAP)` / `assert!(is_full)` are present
+          Guarded,    \* TRUE: the `assert!(i == len)` / `assert!(length == CAP)` / `assert!(is_full)` are present
+          CounterAliased   \* FALSE: whatever its pattern (plain / mut / ref / ref mut) the closure parameter binds a copy of the
+                           \* index; TRUE: the pinned tree, where from_fn!'s `ref mut` parameter was the loop counter itself (F12)
 
-Outcomes == {"Val", "Break", "Continue", "Return", "Panic"}
+\* "Skip": the closure adds one to the loop counter through an aliasing parameter and then yields a value
+Outcomes == {"Val", "Break", "Continue", "Return", "Panic"} \cup (IF CounterAliased THEN {"Skip"} ELSE {})
 Forms == {"map", "map_byval", "collect"}
 
 VARIABLES form, n, i, slots, pushed, pass, cap, pc, spins,
@@ -34,7 +37,7 @@ Init == /\ form \in Forms /\ n \in 0..MaxN
         /\ i = 0 /\ slots = [q \in 1..n |-> "U"] /\ pushed = 0 /\ pass = 1 /\ cap = 0
         /\ pc = "loop" /\ spins = 0
         /\ exit \in Outcomes /\ pos \in 0..MaxN
-        /\ (exit = "Val" => pos = 0) /\ (form = "collect" => exit = "Val")
+        /\ (exit = "Val" => pos = 0) /\ (form = "collect" => exit = "Val") /\ (exit = "Skip" => form = "map")
         /\ led = [din |-> [q \in 1..n |-> 0], dout |-> [q \in 1..n |-> 0]]
 
 \* array::map! / from_fn!:  while i < len { out[i] = MaybeUninit::new(mapper); i += 1 }  assert!(i == len)
@@ -46,6 +49,9 @@ MapIter(o) ==
          [] o = "Continue" -> spins' = spins + 1 /\ UNCHANGED <<slots, i, pc>>        \* `i` is not advanced
          [] o = "Return"   -> pc' = "left" /\ UNCHANGED <<slots, i, spins>>
          [] o = "Panic"    -> pc' = "panicked" /\ UNCHANGED <<slots, i, spins>>
+         \* the counter was bumped before `out[i] = value` is stored (the index is evaluated after the value)
+         [] o = "Skip"     -> IF i + 1 < n THEN slots' = [slots EXCEPT ![i + 2] = "I"] /\ i' = i + 2 /\ UNCHANGED <<pc, spins>>
+                              ELSE pc' = "panicked" /\ UNCHANGED <<slots, i, spins>>
 MapExit == /\ form = "map" /\ pc = "loop" /\ i = n /\ pc' = "after"
            /\ UNCHANGED <<form, n, i, slots, pushed, pass, cap, spins, exit, pos, led>>
 MapAssert == /\ form = "map" /\ pc = "after"
